@@ -195,17 +195,26 @@ def run(ctx) -> None:
         sec_atoms = [a for a in r.atoms if a not in ex_atom]
         ctx.require(len(ex_atom) == 1 and len(sec_atoms) >= 1, f"first pass: atoms {r.atoms}")
 
+        def inline(e: ast.AST, depth: int = 0) -> ast.AST:
+            """Replace single-assignment boolean locals by their definitions."""
+            if isinstance(e, ast.Name) and depth < 5:
+                d = shapes.single_def(pk, e.id)
+                if d is not None:
+                    return inline(d, depth + 1)
+                return e
+            if isinstance(e, ast.BoolOp):
+                return ast.BoolOp(op=e.op, values=[inline(v, depth) for v in e.values])
+            if isinstance(e, ast.UnaryOp) and isinstance(e.op, ast.Not):
+                return ast.UnaryOp(op=e.op, operand=inline(e.operand, depth))
+            return e
+
         def classify(leaf: ast.AST) -> T.Tuple[str, bool]:
             if isinstance(leaf, ast.Compare) and isinstance(leaf.ops[0], (ast.In, ast.NotIn)) and isinstance(leaf.left, ast.Constant) and isinstance(leaf.left.value, bytes):
                 return leaf.left.value.decode(), isinstance(leaf.ops[0], ast.In)
             raise AnalysisError(f"C19/R4: section test leaf not enumerated: {unparse(leaf)}")
         sec = BF.true()
         for a in sec_atoms:
-            tree = ast.parse(a, mode="eval").body
-            if isinstance(tree, ast.Name):
-                d = shapes.single_def(pk, tree.id)
-                ctx.require(d is not None, f"first pass: `{a}` is not a single assignment")
-                tree = d
+            tree = inline(ast.parse(a, mode="eval").body)
             sec = sec & shapes.bool_expr_bf(tree, classify)
         want_sec = (BF.var("bumpver]") | BF.var("pycalver]")) & BF.var("current_version")
         ctx.check("R4", r.implies(BF.var(ex_atom[0])) and sec.equiv(want_sec),
